@@ -28,3 +28,16 @@ package descriptor
 //@   ensures chosen-is-entry: err == nil && n0 > 0 ==> exists(j, 0, n0, dl0[j].Platform != nil && *dl0[j].Platform == retPlat && dl0[j] == ret)
 //@   ensures found-if-exists: err != nil && n0 > 0 ==> forall(k, 0, n0, dl0[k].Platform == nil || !$better(comp.host, *dl0[k].Platform, platform.Platform{}))
 //@   ensures best: err == nil && n0 > 0 && $semcmpOrder() && comp.host.OS != "" && comp.host.Architecture != "" ==> forall(k, 0, n0, dl0[k].Platform == nil || !$better(comp.host, *dl0[k].Platform, retPlat))
+
+// ---- C10: filtering a referrer list leaves the list alone ----
+// scheme.ReferrerFilter applies DescriptorListFilter to the descriptor list of a referrers response,
+// which may be the very list held in the referrers cache of the registry client: the filter builds
+// its result in storage of its own and does not write the list it was given.
+//@ func DescriptorListFilter(dl, opt) (ret)
+//@   prop C10
+//@   loop 0 (d)
+//@     invariant result-in-its-own-storage: $arr(ret) != $arr(dl)
+//@     invariant input-untouched-so-far: forall(k, 0, len(dl), dl[k] == old(dl[k]))
+//@   ensures input-untouched: opt.SortAnnotation == "" ==> forall(k, 0, len(dl), dl[k] == old(dl[k]))
+//   (with a sort annotation sort.Slice then permutes the result, which lies in storage of its own - next clause)
+//@   ensures result-in-its-own-storage: $arr(ret) != $arr(dl)
